@@ -668,31 +668,69 @@ def implied_at(repo, f, node, goal_text, truthy_len=None):
             locals_.discard(a.arg)
     parts = []
     opaque = False
-    for t, pol in pcs:
-        t = _copy(t)
-        if defs:
-            t = ast.fix_missing_locations(_SubstNames(defs).visit(t))
-        if truthy_len:
-            t = ast.fix_missing_locations(_TruthyLen(truthy_len)._b(t))
-        for n in ast.walk(t):
-            if isinstance(n, ast.Name) and n.id in locals_:
-                opaque = True
-            if isinstance(n, ast.Call):
-                fn = n.func
-                if isinstance(fn, ast.Name) and fn.id == 'len':
-                    continue
-                inside = {x.id for x in ast.walk(n) if isinstance(x, ast.Name)}
-                if inside & goal_names:
+
+    class _InlinePredicates(ast.NodeTransformer):
+        """x.is_something() with x the goal's sequence: replaced by the body of the predicate when it is a single
+        `return <expression over self>` defined once in the repository"""
+
+        def visit_Call(self, n):
+            n = self.generic_visit(n)
+            if isinstance(n.func, ast.Attribute) and isinstance(n.func.value, ast.Name) and n.func.value.id in goal_names and not n.args and not n.keywords:
+                cands = [g for g in repo.functions.values() if g.name == n.func.attr and g.cls is not None]
+                if len(cands) == 1:
+                    body = [x for x in cands[0].node.body if not (isinstance(x, ast.Expr) and isinstance(x.value, ast.Constant))]
+                    if len(body) == 1 and isinstance(body[0], ast.Return) and body[0].value is not None and cands[0].params[:1] == ['self'] and len(cands[0].params) == 1:
+                        e = _copy(body[0].value)
+                        who = n.func.value.id
+
+                        class R(ast.NodeTransformer):
+                            def visit_Name(self, m):
+                                return ast.copy_location(ast.Name(id=who, ctx=ast.Load()), m) if m.id == 'self' else m
+                        return R().visit(e)
+            return n
+    def formula(inline):
+        nonlocal opaque
+        opaque = False
+        parts = []
+        for t, pol in pcs:
+            t = _copy(t)
+            if defs:
+                t = ast.fix_missing_locations(_SubstNames(defs).visit(t))
+            if inline:
+                t = ast.fix_missing_locations(_InlinePredicates().visit(t))
+            if truthy_len:
+                t = ast.fix_missing_locations(_TruthyLen(truthy_len)._b(t))
+            for n in ast.walk(t):
+                if isinstance(n, ast.Name) and n.id in locals_:
                     opaque = True
-            if isinstance(n, ast.Subscript) and isinstance(n.value, ast.Name) and n.value.id in goal_names and not isinstance(n.slice, (ast.Constant, ast.Slice, ast.UnaryOp)):
-                opaque = True
-        ft = ast.unparse(_Folder(repo, f.module, f.cls, None).visit(_copy(t)))
-        parts.append('(%s)' % ft if pol else 'not (%s)' % ft)
-    pc = ' and '.join(parts) if parts else 'True'
+                if isinstance(n, ast.Call):
+                    fn = n.func
+                    if isinstance(fn, ast.Name) and fn.id == 'len':
+                        continue
+                    inside = {x.id for x in ast.walk(n) if isinstance(x, ast.Name)}
+                    if inside & goal_names:
+                        opaque = True
+                if isinstance(n, ast.Subscript) and isinstance(n.value, ast.Name) and n.value.id in goal_names and not isinstance(n.slice, (ast.Constant, ast.Slice, ast.UnaryOp)):
+                    opaque = True
+            ft = ast.unparse(_Folder(repo, f.module, f.cls, None).visit(_copy(t)))
+            parts.append('(%s)' % ft if pol else 'not (%s)' % ft)
+        return ' and '.join(parts) if parts else 'True'
+    # a proof needs no more than the plain condition; a counter-example needs the complete one
+    pc = formula(False)
     v = equiv('not (%s) or (%s)' % (pc, goal_text), 'True')
-    if v is False and opaque:
-        return None
-    return v
+    if v is True:
+        return True
+    was_opaque = opaque
+    if v is False and not was_opaque:
+        return False
+    pc2 = formula(True)
+    if pc2 != pc:
+        v2 = equiv('not (%s) or (%s)' % (pc2, goal_text), 'True')
+        if v2 is True:
+            return True
+        if v2 is False and not opaque:
+            return False
+    return None
 
 
 def contract_class(repo, esc, ctor_ranges=True):
